@@ -1297,15 +1297,34 @@ func (c *Ctx) SignCheckBeforeSuccess(include func(*ssa.Function) bool) []core.Ob
 							if !isK || !(kv == 0 || kv == -1) {
 								continue
 							}
-							switch y.Op {
-							case token.LSS, token.GEQ, token.LEQ, token.GTR:
-								if y.Referrers() != nil {
-									for _, u := range *y.Referrers() {
-										// a sign TEST: one side of the branch fails (the entry guard of a counting
-										// loop, `0 < n`, is not one)
-										if iff, isIf := u.(*ssa.If); isIf && (failsOnly(iff.Block().Succs[0]) || failsOnly(iff.Block().Succs[1])) {
-											checks = append(checks, y.Block())
-										}
+							// the edge on which the value is negative: n < 0 / n <= -1 (true edge), n >= 0 / n > -1
+							// (false edge); with the constant on the left the comparison is mirrored. `n > 0` with a
+							// failing true edge (a non-empty list of TAG_End is refused) is no sign test.
+							op := y.Op
+							if y.Y == x { // constant on the left: c OP n  ==  n OP' c
+								switch op {
+								case token.LSS:
+									op = token.GTR
+								case token.GTR:
+									op = token.LSS
+								case token.LEQ:
+									op = token.GEQ
+								case token.GEQ:
+									op = token.LEQ
+								}
+							}
+							negEdge := -1
+							switch {
+							case op == token.LSS && kv == 0, op == token.LEQ && kv == -1:
+								negEdge = 0
+							case op == token.GEQ && kv == 0, op == token.GTR && kv == -1:
+								negEdge = 1
+							}
+							if negEdge >= 0 && y.Referrers() != nil {
+								for _, u := range *y.Referrers() {
+									// a sign TEST: the negative side of the branch fails
+									if iff, isIf := u.(*ssa.If); isIf && failsOnly(iff.Block().Succs[negEdge]) {
+										checks = append(checks, y.Block())
 									}
 								}
 							}
